@@ -157,6 +157,8 @@ static int cond_do_op(int idx, op_t* op) {
     for (int r = 0; r < (op->a > 0 ? op->a : 1); r++) {
       fiber_mutex_lock(&cm);
       gc_m_acq(idx);
+      // (b: the waiter does something that lets other fibers run while it holds the mutex - others may queue up on it)
+      for (int y = 0; y < op->b; y++) fiber_yield();
       gc_wait_begin(idx);
       gc_m_rel(idx);
       fiber_cond_wait(&cv, &cm);
